@@ -1,6 +1,7 @@
 package main
 
 import (
+	"strings"
 	"fmt"
 	"io"
 	"math"
@@ -24,6 +25,9 @@ func runC20(c *mon.Ctx) {
 		c20NoMutationCustom(c, r.Fork(22))
 		if i%3 == 0 {
 			c20NoMutationReporters(c, r.Fork(23))
+		}
+		if i%3 == 2 {
+			c20Defaults(c, r.Fork(25))
 		}
 		if i%3 == 1 {
 			// a histogram keeps the bounds it was given also as seen behind the
@@ -710,4 +714,78 @@ func c20NoMutationReporters(c *mon.Ctx, r *mon.Rand) {
 			return
 		}
 	}
+}
+
+// c20Defaults: "the bounds it was created with" for a histogram requested with
+// no specification are the root's configured DefaultBuckets - on the root and
+// on every scope derived from it, whatever other sets were used under the root.
+func c20Defaults(c *mon.Ctx, r *mon.Rand) {
+	isDur := r.Bool()
+	var def tally.Buckets
+	base := histExpect{IsDur: isDur, Mult: 1}
+	if isDur {
+		base.D = r.DurationSpec(8)
+		def = tally.DurationBuckets(append([]time.Duration(nil), base.D...))
+	} else {
+		base.V = r.ValueSpec(8)
+		def = tally.ValueBuckets(append([]float64(nil), base.V...))
+	}
+	cached := r.Bool()
+	opts := tally.ScopeOptions{OmitCardinalityMetrics: true, DefaultBuckets: def}
+	var prec *mon.PlainRec
+	var crec *mon.CachedRec
+	kind := "plain"
+	if cached {
+		kind = "cached"
+		crec = mon.NewCachedRec(true)
+		opts.CachedReporter = crec
+	} else {
+		prec = mon.NewPlainRec(true)
+		opts.Reporter = prec
+	}
+	root, _ := vNewRoot(opts, 0, uint(r.Range(0, 3)))
+	ctx := map[string]interface{}{"scenario": "histograms requested without a specification use the root's DefaultBuckets", "default_buckets": fmt.Sprint(def), "reporter": kind}
+	c.Eval(1)
+	scopes := map[string]tally.Scope{"d0": root, "s.d1": root.SubScope("s"), "d2": root.Tagged(map[string]string{"k": "v"}), "s.t.d3": root.SubScope("s").Tagged(map[string]string{"k": "v"}).SubScope("t")}
+	var hes []histExpect
+	if c.Guard("panic-create", func() interface{} { return ctx }, func() {
+		// another explicit set first, so that the cache is not empty
+		root.Histogram("other", tally.ValueBuckets{1, 2, 3}).RecordValue(1)
+		for full, sc := range scopes {
+			he := base
+			he.Name = full
+			short := full[strings.LastIndex(full, ".")+1:]
+			var h tally.Histogram
+			if r.Bool() {
+				h = sc.Histogram(short, nil)
+			} else {
+				h = sc.Histogram(short, tally.DefaultBuckets)
+			}
+			if isDur {
+				he.SamplesD = r.SamplesForDurations(base.D, 2)
+				for _, x := range he.SamplesD {
+					h.RecordDuration(x)
+				}
+			} else {
+				he.SamplesV = r.SamplesForValues(base.V, 2)
+				for _, x := range he.SamplesV {
+					h.RecordValue(x)
+				}
+			}
+			hes = append(hes, he)
+		}
+		tally.VerifReportPass(root)
+	}) {
+		return
+	}
+	var log []mon.Event
+	if cached {
+		log, _, _ = crec.Snapshot()
+	} else {
+		log, _, _ = prec.Snapshot()
+	}
+	for _, he := range hes {
+		checkHistLog(c, kind, cached, log, he, ctx)
+	}
+	c.Event("default-bucket-histograms-checked", int64(len(hes)))
 }
